@@ -100,7 +100,7 @@ static Structure make_structure(const SpaceGroup& sg, Lcg& rng, int natoms, bool
 // textbook sum: sum over atoms and ALL symmetry images (rotation parts x centring) of
 // occ * f(stol2) * DWF * exp(2 pi i h.(Rx+t))
 template<typename Table>
-static lcplx textbook(const Structure& st, const GroupOps& gops, const Miller& h) {
+static lcplx textbook(const Structure& st, const GroupOps& gops, const Miller& h, const Addends* addends = nullptr) {
   const UnitCell& cell = st.cell;
   double stol2 = cell.calculate_stol_sq(h);
   lcplx sum = 0;
@@ -108,6 +108,7 @@ static lcplx textbook(const Structure& st, const GroupOps& gops, const Miller& h
     for (const Residue& res : ch.residues)
       for (const Atom& at : res.atoms) {
         long double f = Table::get(at.element.elem, at.charge).calculate_sf((typename Table::Coef::coef_type) stol2);
+        if (addends) f += addends->get(at.element);   // the addend (f') belongs to the element, whatever the charge
         Fractional fx = cell.fractionalize(at.pos);
         for (Op op : gops) {
           std::array<double,3> x = op.apply_to_xyz({{fx.x, fx.y, fx.z}});
@@ -141,6 +142,16 @@ static std::string direct_oracle(const SpaceGroup& sg, Lcg& rng, int natoms, boo
   GroupOps gops = sg.operations();
   if ((int) st.cell.images.size() + 1 != gops.order()) return "bad cell-images count";
   StructureFactorCalculator<Table> calc(st.cell);
+  // addends (real f' corrections per element) in most cases; always when ions are present: an ion gets the addend of
+  // its element exactly like the neutral atom
+  Addends addends;
+  bool with_addends = rng.range(0, 3) != 0 || charges;
+  if (with_addends) {
+    addends.set(Element(El::Fe), -1.35f); addends.set(Element(El::Zn), -1.6f); addends.set(Element(El::Se), -2.8f);
+    addends.set(Element(El::S), 0.32f); addends.set(Element(El::Ca), 0.34f); addends.set(Element(El::P), 0.28f);
+    addends.set(Element(El::O), 0.05f); addends.set(Element(El::C), 0.02f); addends.set(Element(El::N), 0.03f);
+    calc.addends = addends;
+  }
   std::map<Miller, std::complex<double>> F;
   double maxF = 0;
   for (int h = -hmax; h <= hmax; ++h)
@@ -153,7 +164,7 @@ static std::string direct_oracle(const SpaceGroup& sg, Lcg& rng, int natoms, boo
       }
   for (const auto& kv : F) {
     const Miller& m = kv.first;
-    lcplx want = textbook<Table>(st, gops, m);
+    lcplx want = textbook<Table>(st, gops, m, with_addends ? &addends : nullptr);
     if (std::abs(lcplx(kv.second.real(), kv.second.imag()) - want) > 1e-8L * (1 + maxF))
       return "bad textbook-sum at " + hs(m);
     // Friedel
